@@ -482,6 +482,40 @@ def r5_indicators(ctx, repo):
     red = [c for c in calls_in(gd) if (access_path(c.func) or "").split(".")[-1] in ("nanmin", "min", "amin") and c.args]
     rets = [s for s in stmts_of(gd) if isinstance(s, ast.Return)]
     C = "quality_indicator.gd"
+    # branch by branch: where do the distances that are minimised come from?  Pairwise differences (cdist) are exact for
+    # coincident points; the expanded square |r|^2 - 2 r.c + |c|^2 (one matrix product) is not - the three terms cancel
+    # only up to rounding, so a computed point that IS a reference point gets a positive distance
+    from ..paths import Enumerator as _En
+    expansion = unknown_src = None
+    n_gd_paths = 0
+    for p_ in _En(loop_counts=(0, 1)).function_paths(gd):
+        if p_.outcome == "raise":
+            continue
+        n_gd_paths += 1
+        env_ = PathEnv(gd, p_.events)
+        reds_ = [(i_, c_) for i_, e_ in enumerate(p_.events) if e_.kind == "stmt" for c_ in calls_in(e_.node)
+                 if (access_path(c_.func) or "").split(".")[-1] in ("nanmin", "min", "amin", "argmin") and c_.args]
+        if not reds_:
+            continue
+        i_, c_ = reds_[0]
+        src = env_.expand_at(c_.args[0], i_)
+        names_ = {(access_path(x.func) or "").split(".")[-1] for x in ast.walk(src) if isinstance(x, ast.Call)}
+        if "cdist" in names_:
+            continue
+        mixes = any(isinstance(x, ast.BinOp) and isinstance(x.op, ast.MatMult) for x in ast.walk(src)) or names_ & {"dot", "matmul", "einsum", "tensordot", "inner"}
+        subtracts = any(isinstance(x, ast.BinOp) and isinstance(x.op, ast.Sub) and (any(isinstance(y, ast.BinOp) and isinstance(y.op, ast.MatMult) for y in ast.walk(x.right))
+                                                                                     or {(access_path(y.func) or "").split(".")[-1] for y in ast.walk(x.right) if isinstance(y, ast.Call)}
+                                                                                     & {"dot", "matmul", "einsum", "tensordot", "inner"}) for x in ast.walk(src))
+        if mixes and subtracts:
+            expansion = expansion or (c_, text(src)[:160], p_)
+        else:
+            unknown_src = unknown_src or (c_, text(src)[:120])
+    if expansion:
+        ctx.violated("R5", C, where(mod, expansion[0]), "the squared distances are computed by the expansion |r|^2 - 2 r.c + |c|^2 (%s): for a computed point that coincides with a reference "
+                     "point the three terms cancel only up to rounding (badly for coordinates that are large against the spacing), so the distance is not zero and gd of a set against "
+                     "itself is positive (path [%s])" % (expansion[1], expansion[2].describe(3)), key="gd-expansion")
+    elif unknown_src:
+        ctx.inconclusive("R5", C, where(mod, unknown_src[0]), "the minimised matrix %s is not built by cdist" % unknown_src[1], key="gd-expansion")
     if len(cd) != 1 or not red or not rets:
         ctx.inconclusive("R5", C, where(mod, gd), "distance matrix / reduction not recognised")
     else:
